@@ -96,7 +96,7 @@ func lex(s string) ([]rtok, status, string) {
 				return nil, stUnsupported, "empty [..]"
 			}
 			for k := 0; k < len(inner); k++ {
-				if !isDigit(inner[k]) && !isAlpha(inner[k]) {
+				if !isDigit(inner[k]) && !isAlpha(inner[k]) && inner[k] < 0x80 {
 					return nil, stUnsupported, "non-alphanumeric key in [..]"
 				}
 			}
